@@ -204,6 +204,32 @@ Theorem c18_bed_reused_record_stale_after_error : exists src r1 r2,
 Proof. exact bed_reused_record_stale_after_error. Qed.
 Print Assumptions c18_bed_reused_record_stale_after_error.
 
+(* for EVERY input text and EVERY previous record state: a read_record that returns Ok leaves a
+   record on which no accessor and not the owned conversion can panic (the bounds are
+   nondecreasing and within the buffer).  True of the reader repaired in /repo 6993cf2
+   (read_field pops a CR only when it was read as part of the current field); before, the
+   line `sq0<TAB>0<TAB>1<CR><TAB><LF>` was read Ok and feature_end() panicked. *)
+Theorem c18_bed_read_ok_no_panic : forall n src old k,
+  (3 <= n)%nat -> length (bf_std old) = n -> ro_res (bed_read_record n src old) = Ok k ->
+  view_no_panic (bed_view_of n (ro_rec (bed_read_record n src old)))
+  /\ bed_owned n (bed_view_of n (ro_rec (bed_read_record n src old))) <> Panic.
+Proof. exact bed_read_ok_no_panic. Qed.
+Print Assumptions c18_bed_read_ok_no_panic.
+
+Theorem c18_bed_read_ok_bounds : forall n src old k,
+  (1 <= n)%nat -> length (bf_std old) = n -> ro_res (bed_read_record n src old) = Ok k ->
+  let f := ro_rec (bed_read_record n src old) in
+  length (bf_std f) = n /\ chain 0 (bf_std f ++ bf_oth f) (length (bf_buf f)).
+Proof. exact bed_read_ok_bounds. Qed.
+Print Assumptions c18_bed_read_ok_bounds.
+
+(* exactness: after a FAILED read the accessors can still panic (buffer cleared, old bounds kept) *)
+Theorem c18_bed_failed_read_accessor_panics :
+  ro_res (bed_read_record 3 [10] (bed_default 3)) = Err InvalidData /\
+  bv_name (bed_view_of 3 (ro_rec (bed_read_record 3 [10] (bed_default 3)))) = Panic.
+Proof. exact bed_failed_read_accessor_panics. Qed.
+Print Assumptions c18_bed_failed_read_accessor_panics.
+
 (* a whole file (mixed numbers of extra columns) read line by line into ONE record *)
 Theorem c18_bed_file_roundtrip : forall n rs text old fuel,
   Forall (fun r => bed_wf r /\ b_n r = n) rs -> bed_write_file rs = Ok text ->
